@@ -10,7 +10,10 @@ Bern(v)  == Fn("Bernoulli", <<v>>)
 
 (* --- set operators over siblings under a common ancestor ------------------ *)
 LSet == Language("org.verif.set",
-  << Asset("Ra", NONE, <<>>, << Or("t", NoR) >>),
+  \* x / y: a set operator applied PER ASSET reached by the collect before it (hr.(rs - ps) is not (hr.rs) - (hr.ps))
+  << Asset("Ra", NONE, <<>>, << Or("t", NoR),
+                                Or("x", Ovr(<< Col(Col(F("hr"), Df(F("rs"), F("ps"))), St("t")) >>)),
+                                Or("y", Ovr(<< Col(Col(F("hr"), In(F("rs"), F("ps"))), St("t")) >>)) >>),
      Asset("Pa", "Ra", <<>>, <<>>),
      Asset("Qa", "Ra", <<>>, <<>>),
      Asset("Ha", NONE, <<>>,
